@@ -200,16 +200,18 @@ Lemma root_visible data segs blocks1 blocks2 :
 Proof. reflexivity. Qed.
 
 (* ---------- expand_partial ---------- *)
-Lemma depth_step_res d s : restored s (depth_step d s).
+(* depth_step changes only the depth *)
+Definition same_but_depth (s s' : rstate) : Prop :=
+  s_blocks s' = s_blocks s /\ s_pb_stack s' = s_pb_stack s /\ s_current s' = s_current s /\
+  s_indent s' = s_indent s /\ s_root s' = s_root s /\ s_dev s' = s_dev s /\
+  s_disable_escape s' = s_disable_escape s /\ s_partials s' = s_partials s.
+Lemma depth_step_res d s : same_but_depth s (depth_step d s).
 Proof.
-  unfold depth_step. destruct (str_eqb (dv_name d) PARTIAL_BLOCK); [res|].
-  destruct (Z.ltb 0 (s_pb_depth s)); [res|apply restored_refl].
+  unfold depth_step, same_but_depth. destruct (str_eqb (dv_name d) PARTIAL_BLOCK); [|intuition].
+  destruct (current_pb s) as [[pb d0]|]; st_cbn; intuition.
 Qed.
 Lemma depth_step_current d s : s_current (depth_step d s) = s_current s.
-Proof.
-  unfold depth_step. destruct (str_eqb (dv_name d) PARTIAL_BLOCK); [reflexivity|].
-  destruct (Z.ltb 0 (s_pb_depth s)); reflexivity.
-Qed.
+Proof. apply (depth_step_res d s). Qed.
 
 Lemma partial_context_st data d s v s' : partial_context data d s = ROk v s' -> s' = s.
 Proof.
@@ -241,7 +243,38 @@ Section Partial.
   Definition run_block_decorators (f : nat) (d : deco_v) (s : rstate) : rres unit :=
     match dv_tpl d with Some t => eval_template reg data ft f t s | None => ROk tt s end.
 
-  (* (a) the unfolding characterisation *)
+  (* (a) the unfolding characterisation, in general ... *)
+  Theorem expand_partial_unfold f d s :
+    expand_partial reg data ft (S f) d s =
+    rbind (run_block_decorators f d s) (fun _ s1 =>
+      if is_self d s1 then rfail RCannotIncludeSelf s1
+      else match resolve_partial reg d s1 with
+           | None => rfail (RPartialNotFound (dv_name d)) s1
+           | Some partial =>
+               rbind (partial_context data d (depth_step d s1)) (fun merged s3 =>
+                 match render_template reg data ft f partial (partial_inner d merged s3) with
+                 | ROk u s7 => ROk u (partial_cleanup d s1 s7)
+                 | RErr e s7 => RErr e (partial_cleanup d s1 s7)
+                 | RPanic p => RPanic p
+                 | RFuel => RFuel
+                 end)
+           end).
+  Proof.
+    rewrite expand_partial_eq. unfold run_block_decorators.
+    destruct (match dv_tpl d with Some t => eval_template reg data ft f t s | None => ROk tt s end)
+      as [[] s1|e s1|p|]; cbn [rbind]; try reflexivity.
+    cbv zeta. fold (is_self d s1). destruct (is_self d s1); [reflexivity|].
+    fold (resolve_partial reg d s1). destruct (resolve_partial reg d s1) as [partial|]; [|reflexivity].
+    fold (depth_step d s1). fold (hash_values d). fold (partial_context data d (depth_step d s1)).
+    destruct (partial_context data d (depth_step d s1)) as [merged s3|e s3|p|] eqn:Hc; cbn [rbind]; try reflexivity.
+    apply partial_context_st in Hc. subst s3.
+    assert (Hb : s_blocks (depth_step d s1) = s_blocks s1) by (apply (depth_step_res d s1)).
+    unfold partial_cleanup, partial_inner. rewrite Hb.
+    destruct (render_template reg data ft f partial _); reflexivity.
+  Qed.
+
+  (* ... and when the decorators ran, the name is not the current template and
+     the partial is found *)
   Theorem partial_spec f d s s1 partial :
     run_block_decorators f d s = ROk tt s1 ->
     is_self d s1 = false ->
@@ -255,15 +288,7 @@ Section Partial.
       | RFuel => RFuel
       end).
   Proof.
-    unfold run_block_decorators, is_self, resolve_partial. intros Hd Hself Hres.
-    rewrite expand_partial_eq. rewrite Hd. cbn [rbind]. cbv zeta. rewrite Hself, Hres.
-    fold (depth_step d s1). fold (hash_values d). fold (partial_context data d (depth_step d s1)).
-    destruct (partial_context data d (depth_step d s1)) as [merged s3|e s3|p|] eqn:Hc; cbn [rbind]; try reflexivity.
-    apply partial_context_st in Hc. subst s3.
-    assert (Hb : s_blocks (depth_step d s1) = s_blocks s1) by (apply (depth_step_res d s1)).
-    assert (Hi : s_indent (depth_step d s1) = s_indent s1) by (apply (depth_step_res d s1)).
-    unfold partial_cleanup, partial_inner. rewrite Hb.
-    destruct (render_template reg data ft f partial _); reflexivity.
+    intros Hd Hself Hres. rewrite expand_partial_unfold, Hd. cbn [rbind]. rewrite Hself, Hres. reflexivity.
   Qed.
 
   (* inversion of a successful partial call into its stages *)
@@ -290,21 +315,28 @@ Section Partial.
   Qed.
 
   (* the restore facts: after a successful partial call the block stack, the
-     indent string, the current template name and the partial-block stack are
-     those of the state in which the partial was looked up *)
+     indent string, the current template name, the partial-block stack and the
+     partial-block depth are those of the state in which the partial was
+     looked up *)
   Theorem partial_restores f d s s' :
     expand_partial reg data ft (S f) d s = ROk tt s' ->
     exists s1, run_block_decorators f d s = ROk tt s1 /\
       s_blocks s' = s_blocks s1 /\ s_indent s' = s_indent s1 /\
-      s_current s' = s_current s1 /\ s_pb_stack s' = s_pb_stack s1.
+      s_current s' = s_current s1 /\ s_pb_stack s' = s_pb_stack s1 /\
+      s_pb_depth s' = s_pb_depth s1.
   Proof.
     intros H. apply partial_ok_inv in H.
     destruct H as (s1 & partial & merged & s7 & Hd & _ & _ & _ & Hr & ->).
     exists s1. split; [exact Hd|]. apply frame_template in Hr.
     pose proof (depth_step_res d s1) as Hs.
-    unfold partial_cleanup, partial_inner in *.
+    unfold partial_cleanup, partial_inner, same_but_depth in *.
     destruct (dv_tpl d); res2.
   Qed.
+
+  (* and with respect to the state before the call: everything in `restored` *)
+  Theorem partial_restored f d s s' :
+    expand_partial reg data ft (S f) d s = ROk tt s' -> restored s s'.
+  Proof. apply (fr_expand_partial _ _ _ _ (frame_all reg data ft (S f))). Qed.
 
   (* hash arguments (and the context argument) are invisible after the call:
      the block stack is the caller's again *)
@@ -398,6 +430,30 @@ Section Partial.
     expand_partial reg data ft (S f) d s = RErr (mk_err RCannotIncludeSelf) s.
   Proof. intros Ht Hc. apply self_include; [unfold run_block_decorators; rewrite Ht; reflexivity|exact Hc]. Qed.
 
+  (* the same at the level of the partial element, in whatever state of the
+     template's body it is reached: the current name survives every finished
+     element (frame), so {{> n}} inside the template n is always refused *)
+  Theorem self_include_element f dt s d s2 :
+    deco_from_template reg data ft (S f) dt s = ROk d s2 ->
+    s_current s = Some (dv_name d) -> dv_tpl d = None ->
+    exists s3, render_element reg data ft (S (S (S f))) (ElPartExpr dt) s = RErr (mk_err RCannotIncludeSelf) s3.
+  Proof.
+    intros Hd Hc Ht. rewrite render_element_eq, render_partial_eq, Hd. cbn [rbind]. cbv zeta.
+    rewrite self_include_plain; [eexists; reflexivity|exact Ht|].
+    apply (fr_deco_from_template _ _ _ _ (frame_all reg data ft (S f))) in Hd.
+    destruct Hd as (_ & _ & _ & Hcur & _). st_cbn. congruence.
+  Qed.
+
+  Theorem self_include_after_elements f f' (g : nat -> rerror -> rerror) A i s0 s1 n dt d s2 :
+    fold_idx (fun e idx s' => rmap_err (render_element reg data ft f' e s') (g idx)) A i s0 = ROk tt s1 ->
+    s_current s0 = Some n ->
+    deco_from_template reg data ft (S f) dt s1 = ROk d s2 -> dv_name d = n -> dv_tpl d = None ->
+    exists s3, render_element reg data ft (S (S (S f))) (ElPartExpr dt) s1 = RErr (mk_err RCannotIncludeSelf) s3.
+  Proof.
+    intros HA Hc Hd Hn Ht. apply frame_elements in HA. destruct HA as (_ & _ & _ & Hcur & _).
+    eapply self_include_element; [exact Hd| |exact Ht]. congruence.
+  Qed.
+
   (* (e) an unknown partial without a block *)
   Theorem not_found f d s s1 :
     run_block_decorators f d s = ROk tt s1 ->
@@ -419,60 +475,208 @@ Section Partial.
     rewrite (resolve_block d s H1 H2 H3). exact Ht.
   Qed.
 
-  (* (f) @partial-block: the first use inside a partial called with a block
-     (from depth 0 or 1) finds the caller's block ... *)
-  Lemma get_partial_block s pb rest :
-    s_pb_depth s = 0%Z -> s_pb_stack s = pb :: rest -> get_partial s PARTIAL_BLOCK = Some pb.
-  Proof. unfold get_partial. intros -> ->. reflexivity. Qed.
-
-  Theorem partial_block_first_use d merged s1 pb :
-    dv_tpl d = Some pb -> str_eqb (dv_name d) PARTIAL_BLOCK = false ->
-    (0 <= s_pb_depth s1 <= 1)%Z ->
-    get_partial (partial_inner d merged (depth_step d s1)) PARTIAL_BLOCK = Some pb.
+  (* (f) @partial-block.  Inside a partial called with a block pb, the
+     @partial-block binding is pb, recorded with the depth current at the call *)
+  Theorem partial_block_bound d merged s pb :
+    dv_tpl d = Some pb ->
+    current_pb (partial_inner d merged s) = Some (pb, s_pb_depth s) /\
+    get_partial (partial_inner d merged s) PARTIAL_BLOCK = Some pb.
   Proof.
-    intros Ht Hn Hd. unfold partial_inner, depth_step. rewrite Ht, Hn.
-    destruct (Z.ltb 0 (s_pb_depth s1)) eqn:E.
-    - apply Z.ltb_lt in E. eapply get_partial_block; [|reflexivity]. cbn. lia.
-    - apply Z.ltb_ge in E. eapply get_partial_block; [|reflexivity]. cbn. lia.
+    intros Ht.
+    assert (H : current_pb (partial_inner d merged s) = Some (pb, s_pb_depth s)).
+    { unfold current_pb, partial_inner. rewrite Ht. st_cbn. cbn [List.length].
+      replace (Z.ltb (Z.of_nat (S (List.length (s_pb_stack s)))) 1) with false by (symmetry; apply Z.ltb_ge; lia).
+      rewrite Z.ltb_irrefl. cbn [orb]. rewrite Z.sub_diag. reflexivity. }
+    split; [exact H|]. unfold get_partial. rewrite str_eqb_refl, H. reflexivity.
   Qed.
 
-  (* ... but entering @partial-block increments the depth, and nothing ever
-     puts it back (F3) *)
-  Lemma depth_step_block d s :
-    dv_name d = PARTIAL_BLOCK -> s_pb_depth (depth_step d s) = (s_pb_depth s + 1)%Z.
-  Proof. unfold depth_step. intros ->. reflexivity. Qed.
-  Lemma cleanup_keeps_depth d before s : s_pb_depth (partial_cleanup d before s) = s_pb_depth s.
+  (* entering {{> @partial-block}} when the binding is (pb, d0): the template
+     rendered is pb, and inside it @partial-block is entry d0: the binding of
+     the place where pb was written *)
+  Theorem partial_block_enter d s pb d0 :
+    dv_name d = PARTIAL_BLOCK -> current_pb s = Some (pb, d0) ->
+    resolve_partial reg d s = Some pb /\ depth_step d s = set_pb_depth s d0.
+  Proof.
+    intros Hn Hc. split.
+    - apply resolve_inline. rewrite Hn. unfold get_partial. rewrite str_eqb_refl, Hc. reflexivity.
+    - unfold depth_step. rewrite Hn, str_eqb_refl, Hc. reflexivity.
+  Qed.
+
+  (* which entry a depth denotes depends only on the entries below it: pushing
+     further blocks on top (nested partial calls) does not change it *)
+  Lemma nth_error_rev {A} (l : list A) k :
+    (k < List.length l)%nat -> nth_error l (List.length l - S k) = nth_error (rev l) k.
+  Proof.
+    intros Hk. destruct l as [|d l']; [cbn in Hk; lia|].
+    rewrite (nth_error_nth' (d :: l') d) by lia.
+    rewrite (nth_error_nth' (rev (d :: l')) d) by (rewrite rev_length; exact Hk).
+    rewrite rev_nth by exact Hk. reflexivity.
+  Qed.
+
+  Lemma current_pb_spec s :
+    current_pb s =
+    if Z.ltb (s_pb_depth s) 1 || Z.ltb (Z.of_nat (List.length (s_pb_stack s))) (s_pb_depth s) then None
+    else nth_error (rev (s_pb_stack s)) (Z.to_nat (s_pb_depth s - 1)).
+  Proof.
+    unfold current_pb. cbv zeta.
+    destruct (Z.ltb (s_pb_depth s) 1) eqn:E1; [reflexivity|].
+    destruct (Z.ltb (Z.of_nat (List.length (s_pb_stack s))) (s_pb_depth s)) eqn:E2; [reflexivity|].
+    cbn [orb]. apply Z.ltb_ge in E1. apply Z.ltb_ge in E2.
+    rewrite <- nth_error_rev by lia. f_equal. lia.
+  Qed.
+
+  Theorem current_pb_below sA sB top :
+    s_pb_depth sB = s_pb_depth sA -> s_pb_stack sB = top ++ s_pb_stack sA ->
+    (s_pb_depth sA <= Z.of_nat (List.length (s_pb_stack sA)))%Z ->
+    current_pb sB = current_pb sA.
+  Proof.
+    intros Hd Hs Hle. rewrite !current_pb_spec, Hd, Hs, rev_app_distr, app_length.
+    destruct (Z.ltb (s_pb_depth sA) 1) eqn:E1; [reflexivity|]. cbn [orb]. apply Z.ltb_ge in E1.
+    replace (Z.ltb (Z.of_nat (List.length top + List.length (s_pb_stack sA))) (s_pb_depth sA)) with false
+      by (symmetry; apply Z.ltb_ge; lia).
+    replace (Z.ltb (Z.of_nat (List.length (s_pb_stack sA))) (s_pb_depth sA)) with false
+      by (symmetry; apply Z.ltb_ge; lia).
+    apply nth_error_app1. rewrite rev_length. lia.
+  Qed.
+
+  (* closure semantics: a block body passed at a call site (binding: depth dc
+     over the stack `base`) and used later through {{> @partial-block}} -- from
+     any state whose stack extends `base` and whose binding is that body's
+     entry (pb, dc) -- is rendered with @partial-block bound exactly as at the
+     call site *)
+  Theorem partial_block_closure d s1 pb dc top sc :
+    dv_name d = PARTIAL_BLOCK -> current_pb s1 = Some (pb, dc) ->
+    s_pb_stack s1 = top ++ s_pb_stack sc -> s_pb_depth sc = dc ->
+    (dc <= Z.of_nat (List.length (s_pb_stack sc)))%Z ->
+    resolve_partial reg d s1 = Some pb /\
+    current_pb (depth_step d s1) = current_pb sc.
+  Proof.
+    intros Hn Hc Hs Hd Hle. destruct (partial_block_enter d s1 pb dc Hn Hc) as [Hr ->].
+    split; [exact Hr|]. apply (current_pb_below sc (set_pb_depth s1 dc) top); st_cbn; congruence.
+  Qed.
+
+  (* the side condition of partial_block_closure is an invariant: the depth
+     never exceeds the stack, and every entry's recorded depth is at most the
+     number of entries below it.  It holds initially and is kept by every step
+     that touches these fields (and by every finished function, by `restored`) *)
+  Fixpoint entries_ok (st : list (template * Z)) : Prop :=
+    match st with
+    | [] => True
+    | (_, d0) :: r => (0 <= d0 <= Z.of_nat (List.length r))%Z /\ entries_ok r
+    end.
+  Definition pb_ok (s : rstate) : Prop :=
+    (0 <= s_pb_depth s <= Z.of_nat (List.length (s_pb_stack s)))%Z /\ entries_ok (s_pb_stack s).
+
+  Lemma pb_ok_init root dev fa : pb_ok (st_init root dev fa).
+  Proof. split; cbn; [lia|exact I]. Qed.
+  Lemma pb_ok_restored s s' : restored s s' -> pb_ok s -> pb_ok s'.
+  Proof. intros (_ & H2 & H3 & _). unfold pb_ok. rewrite H2, H3. exact (fun H => H). Qed.
+  Lemma entries_ok_nth st : forall i t d0, entries_ok st -> nth_error st i = Some (t, d0) ->
+    (0 <= d0 <= Z.of_nat (List.length st))%Z.
+  Proof.
+    induction st as [|[t' d'] r IH]; intros i t d0 Hok Hn; [destruct i; discriminate Hn|].
+    destruct Hok as [H1 H2]. destruct i as [|i]; cbn [nth_error] in Hn.
+    - injection Hn as -> ->. cbn [List.length]. lia.
+    - specialize (IH _ _ _ H2 Hn). cbn [List.length]. lia.
+  Qed.
+  Lemma pb_ok_depth_step d s : pb_ok s -> pb_ok (depth_step d s).
+  Proof.
+    intros [H1 H2]. unfold depth_step. destruct (str_eqb (dv_name d) PARTIAL_BLOCK); [|split; assumption].
+    destruct (current_pb s) as [[pb d0]|] eqn:E; [|split; assumption].
+    split; [|exact H2]. st_cbn. unfold current_pb in E. cbv zeta in E.
+    destruct (_ || _) in E; [discriminate E|]. eapply entries_ok_nth; eassumption.
+  Qed.
+  Lemma pb_ok_inner d merged s : pb_ok s -> pb_ok (partial_inner d merged s).
+  Proof.
+    intros [H1 H2]. unfold partial_inner, pb_ok. destruct (dv_tpl d); st_cbn; [|split; assumption].
+    cbn [List.length entries_ok]. split; [lia|]. split; assumption.
+  Qed.
+  Lemma pb_ok_closure_side s : pb_ok s -> (s_pb_depth s <= Z.of_nat (List.length (s_pb_stack s)))%Z.
+  Proof. intros [H _]. lia. Qed.
+
+  Lemma pb_ok_invariant :
+    (forall root dev fa, pb_ok (st_init root dev fa)) /\
+    (forall s s', restored s s' -> pb_ok s -> pb_ok s') /\
+    (forall d s, pb_ok s -> pb_ok (depth_step d s)) /\
+    (forall d merged s, pb_ok s -> pb_ok (partial_inner d merged s)) /\
+    (forall s, pb_ok s -> (s_pb_depth s <= Z.of_nat (List.length (s_pb_stack s)))%Z).
+  Proof.
+    split; [exact pb_ok_init|]. split; [exact pb_ok_restored|]. split; [exact pb_ok_depth_step|].
+    split; [exact pb_ok_inner|exact pb_ok_closure_side].
+  Qed.
+
+  (* entering @partial-block changes only the depth; the cleanup puts it back *)
+  Lemma cleanup_restores_depth d before s : s_pb_depth (partial_cleanup d before s) = s_pb_depth before.
   Proof. unfold partial_cleanup. destruct (dv_tpl d); reflexivity. Qed.
 End Partial.
 
-(* ---------- F3: the second {{> @partial-block}} fails ---------- *)
+(* ---------- @partial-block any number of times ---------- *)
+(* after any prefix A of a run of elements, the @partial-block binding is the
+   one the run started with: the k-th use sees what the first use saw *)
+Theorem partial_block_every_use reg data ft f (g : nat -> rerror -> rerror) A B i s0 s' :
+  fold_idx (fun e idx s' => rmap_err (render_element reg data ft f e s') (g idx)) (A ++ B) i s0 = ROk tt s' ->
+  exists s1,
+    fold_idx (fun e idx s' => rmap_err (render_element reg data ft f e s') (g idx)) A i s0 = ROk tt s1 /\
+    fold_idx (fun e idx s' => rmap_err (render_element reg data ft f e s') (g idx)) B (i + List.length A)%nat s1
+    = ROk tt s' /\
+    restored s0 s1 /\
+    get_partial s1 PARTIAL_BLOCK = get_partial s0 PARTIAL_BLOCK.
+Proof.
+  rewrite fold_idx_app. intros H. apply rbind_ok in H. destruct H as ([] & s1 & H1 & H2).
+  exists s1. split; [exact H1|]. split; [exact H2|].
+  pose proof (frame_elements _ _ _ _ _ _ _ _ _ H1) as Hr. split; [exact Hr|apply restored_partial_block; exact Hr].
+Qed.
+
+(* hence inside a partial called with a block pb, before every top-level
+   element of the partial's body -- whatever came before it, including earlier
+   uses of {{> @partial-block}} -- @partial-block is pb, recorded with the
+   depth of the call site *)
+Theorem partial_block_all_uses reg data ft f d merged s1 pb partial A B s' :
+  dv_tpl d = Some pb ->
+  t_els partial = A ++ B ->
+  render_template reg data ft (S f) partial (partial_inner d merged s1) = ROk tt s' ->
+  exists sA,
+    fold_idx (fun e idx s' => rmap_err (render_element reg data ft f e s') (attach_render partial idx)) A 0%nat
+             (set_current (partial_inner d merged s1) (t_name partial)) = ROk tt sA /\
+    current_pb sA = Some (pb, s_pb_depth s1) /\
+    get_partial sA PARTIAL_BLOCK = Some pb.
+Proof.
+  intros Ht Hsplit H. apply render_template_ok in H. destruct H as (s2 & H & _).
+  rewrite Hsplit in H. apply partial_block_every_use in H. destruct H as (sA & HA & _ & Hr & Hg).
+  exists sA. split; [exact HA|].
+  destruct (partial_block_bound d merged s1 pb Ht) as [Hc Hp]. split.
+  - rewrite (restored_current_pb _ _ Hr). exact Hc.
+  - rewrite Hg. exact Hp.
+Qed.
+
+(* (was F3) p = {{> @partial-block}}{{> @partial-block}}, m = {{#> p}}D{{/p}} *)
 Definition f3_twice_reg : registry :=
   reg_with_strings [(`"p", `"{{> @partial-block}}{{> @partial-block}}"); (`"m", `"{{#> p}}D{{/p}}")].
 
-Theorem refuted_twice :
-  exists reg data ft fuel t s e s',
-    t = reg_tpl reg (`"m") /\
-    map_get (r_templates reg) (`"p") = Some (reg_tpl reg (`"p")) /\
-    (exists d1 d2 d0 b, t_els (reg_tpl reg (`"p")) = [ElPartExpr d1; ElPartExpr d2] /\
-                        as_name (d_name d1) = Some PARTIAL_BLOCK /\ as_name (d_name d2) = Some PARTIAL_BLOCK /\
-                        t_els t = [ElPartBlock d0] /\ d_name d0 = PName (`"p") /\
-                        d_tpl d0 = Some b /\ t_els b = [ElRaw (`"D")]) /\
-    render_template reg data ft fuel t s = RErr e s' /\
-    e_reason e = RPartialNotFound PARTIAL_BLOCK /\
-    out_text (s_out s') = `"D".
-Proof.
-  exists f3_twice_reg, JNull, [], 20%nat, (reg_tpl f3_twice_reg (`"m")), (st_init (Some (`"m")) None None).
-  eexists. eexists.
-  split; [reflexivity|]. split; [vm_compute; reflexivity|].
-  split; [do 4 eexists; vm_compute; repeat split; reflexivity|].
-  split; [vm_compute; reflexivity|]. split; vm_compute; reflexivity.
-Qed.
+Example twice_ok :
+  render_named f3_twice_reg [] [] (`"m") JNull None = RoOk (`"DD") [] 2.
+Proof. vm_compute. reflexivity. Qed.
 
-(* the same through the registry entry point `render` *)
-Theorem refuted_twice_entry :
-  exists e, render_named f3_twice_reg [] [] (`"m") JNull None = RoErr e (`"D") [] /\
-            e_reason e = RPartialNotFound PARTIAL_BLOCK.
-Proof. eexists. split; vm_compute; reflexivity. Qed.
+Example twice_angle_ok :
+  render_named (reg_with_strings [(`"p", `"<{{> @partial-block}}{{> @partial-block}}>"); (`"m", `"{{#> p}}D{{/p}}")])
+               [] [] (`"m") JNull None = RoOk (`"<DD>") [] 4.
+Proof. vm_compute. reflexivity. Qed.
+
+(* nested partial blocks resolve @partial-block lexically (this looped before
+   the repair) *)
+Example nested_lexical_ok :
+  render_named (reg_with_strings [(`"l3", `"[{{> @partial-block}}]");
+                                  (`"l2", `"<{{#> l3}}{{#> l3}}{{> @partial-block}}{{/l3}}{{/l3}}>");
+                                  (`"m", `"{{#> l2}}X{{/l2}}")])
+               [] [] (`"m") JNull None = RoOk (`"<[[X]]>") [] 7.
+Proof. vm_compute. reflexivity. Qed.
+
+Example thrice_nested_ok :
+  render_named (reg_with_strings [(`"q", `"({{> @partial-block}}{{> @partial-block}})");
+                                  (`"p", `"<{{#> q}}{{> @partial-block}}{{/q}}{{> @partial-block}}>");
+                                  (`"m", `"{{#> p}}D{{/p}}")])
+               [] [] (`"m") JNull None = RoOk (`"<(DD)D>") [] 7.
+Proof. vm_compute. reflexivity. Qed.
 
 (* a single use works *)
 Example single_use_ok :
@@ -489,6 +693,17 @@ Example partial_spec_ex :
   = RoOk (`"[x1xR][y1yR]") [] 12.
 Proof. vm_compute. reflexivity. Qed.
 
+Definition ex_dv : deco_v :=
+  {| dv_name := `"p"; dv_params := []; dv_hash := [(`"k", {| pj_rel := None; pj_val := SConstant (JNum (PosInt 1)) |})];
+     dv_tpl := None; dv_indent := None |}.
+Example partial_spec_hyps_ex :
+  run_block_decorators ex_reg JNull [] 5 ex_dv (st_init None None None) = ROk tt (st_init None None None) /\
+  is_self ex_dv (st_init None None None) = false /\
+  resolve_partial ex_reg ex_dv (st_init None None None) = Some (reg_tpl ex_reg (`"p")) /\
+  partial_context (JObj [(`"a", JNull)]) ex_dv (depth_step ex_dv (st_init None None None))
+  = ROk (JObj [(`"a", JNull); (`"k", JNum (PosInt 1))]) (st_init None None None).
+Proof. vm_compute. repeat split; reflexivity. Qed.
+
 Example merge_json_ex :
   merge_json (JObj [(`"a", JNull); (`"b", JBool true)]) [(`"b", JNull); (`"c", JBool false)]
   = JObj [(`"a", JNull); (`"b", JNull); (`"c", JBool false)]
@@ -501,6 +716,12 @@ Example self_include_ex :
                  (reg_tpl (reg_with_strings [(`"t", `"a{{> t}}")]) (`"t")) (st_init (Some (`"t")) None None)
                = RErr e s' /\ e_reason e = RCannotIncludeSelf.
 Proof. do 2 eexists. split; vm_compute; reflexivity. Qed.
+
+(* (was F4) the self-include after a finished block is now refused *)
+Example self_include_after_block_ex :
+  exists e, render_named (reg_with_strings [(`"t", `"{{#if true}}x{{/if}}{{> t}}")]) [] [] (`"t") JNull None
+            = RoErr e (`"x") [] /\ e_reason e = RCannotIncludeSelf.
+Proof. eexists. split; vm_compute; reflexivity. Qed.
 
 Example not_found_ex :
   exists e, render_named (reg_with_strings [(`"m", `"a{{> nope}}")]) [] [] (`"m") JNull None
